@@ -241,3 +241,31 @@ Fixpoint last_func (d : mock) (m : str) (cur : option ufunc) (ops : list op) : o
     then last_func d m f t else last_func d m cur t
   | _ :: t => last_func d m cur t
   end.
+
+(* ---- the test's side: results of <M>Calls() that the test keeps ---- *)
+(* A test may keep the slice returned by <M>Calls() and look at it again later.  In the model the result of
+   <M>Calls() is a VALUE: it is stored under an identifier in a store that no operation of the mock can reach
+   ([step] neither takes nor returns it), so looking at it again gives exactly what was returned then.  The real
+   mock returns its internal slice without copying; that is only faithful to this model as long as no later
+   operation writes into the part of the backing array a returned slice still points to. *)
+Definition kept := nat -> option (list record).
+Inductive top := TOp (o : op) | TKeep (id : nat) (m : str) | TRecheck (id : nat).
+Definition tstep (fuel : nat) (d : mock) (ts : state * kept) (t : top) : (state * kept) * out * list event :=
+  match t with
+  | TOp o => let '(st', x, ev) := step fuel d (fst ts) o in ((st', snd ts), x, ev)
+  | TKeep id m =>
+    let '(st', x, ev) := step fuel d (fst ts) (Calls m) in
+    ((st', match x with ORecords l => fun i => if Nat.eqb i id then Some l else snd ts i | _ => snd ts end), x, ev)
+  | TRecheck id => (ts, match snd ts id with Some l => ORecords l | None => ONoMethod end, [])
+  end.
+Fixpoint ttrace (fuel : nat) (d : mock) (ts : state * kept) (l : list top) : list (top * out * list event) :=
+  match l with
+  | [] => []
+  | t :: r => let '(ts', x, ev) := tstep fuel d ts t in (t, x, ev) :: ttrace fuel d ts' r
+  end.
+Fixpoint tfinal (fuel : nat) (d : mock) (ts : state * kept) (l : list top) : state * kept :=
+  match l with
+  | [] => ts
+  | t :: r => tfinal fuel d (fst (fst (tstep fuel d ts t))) r
+  end.
+Definition keeps_id (id : nat) (t : top) : bool := match t with TKeep id' _ => Nat.eqb id' id | _ => false end.
